@@ -6,6 +6,7 @@ World *make_world_l();
 World *make_world_si();
 World *make_world_so();
 World *make_world_p();
+World *make_world_i();
 World *make_world(const std::string &name) {
   if (name == "Q") return make_world_q();
   if (name == "H") return make_world_h();
@@ -13,6 +14,7 @@ World *make_world(const std::string &name) {
   if (name == "SI") return make_world_si();
   if (name == "SO") return make_world_so();
   if (name == "P") return make_world_p();
+  if (name == "I") return make_world_i();
   return nullptr;
 }
 }  // namespace sim
